@@ -387,6 +387,52 @@ Proof.
   apply is_k_kind. rewrite forallb_forall in Hvs. apply Hvs. exact Hx.
 Qed.
 
+(* the extended-slice form: the members of the produced list are old members or assigned values *)
+Lemma set_at_incl : forall (l : list id) p v x, In x (set_at p v l) -> In x l \/ x = v.
+Proof.
+  induction l as [|y l IH]; intros p v x H; [left; destruct p; exact H|].
+  destruct p as [|p]; cbn [set_at] in H.
+  - destruct H as [H|H]; [right; symmetry; exact H|left; right; exact H].
+  - destruct H as [H|H]; [left; left; exact H|].
+    destruct (IH p v x H) as [H1|H1]; [left; right; exact H1|right; exact H1].
+Qed.
+
+Lemma set_positions_incl : forall ps vs l x, In x (set_positions l ps vs) -> In x l \/ In x vs.
+Proof.
+  induction ps as [|p ps IH]; intros vs l x H; [left; exact H|].
+  destruct vs as [|v vs]; [left; exact H|]. cbn [set_positions] in H.
+  destruct (IH vs (set_at p v l) x H) as [H1|H1].
+  - destruct (set_at_incl l p v x H1) as [H2|H2]; [left; exact H2|right; left; symmetry; exact H2].
+  - right; right; exact H1.
+Qed.
+
+Lemma keep_last_from_incl : forall new0 ps rest pos x, In x (keep_last_from pos new0 rest ps) -> In x rest.
+Proof.
+  intros new0 ps. induction rest as [|y r IH]; intros pos x H; [exact H|].
+  cbn [keep_last_from] in H. apply in_app_or in H. destruct H as [H|H].
+  - left. destruct (last_assigned new0 ps y) as [q|]; [destruct (Nat.eqb q pos)|];
+      (destruct H as [H|[]]; exact H) || destruct H.
+  - right. apply (IH (S pos) x H).
+Qed.
+
+Lemma assign_ext_incl : forall l ps vs x, In x (assign_ext l ps vs) -> In x l \/ In x vs.
+Proof.
+  intros l ps vs x H. unfold assign_ext in H. apply keep_last_from_incl in H. apply set_positions_incl in H. exact H.
+Qed.
+
+Lemma step_modsetext_good : forall w ir a b c vs w', kindof w ir = KIR ->
+  forallb (fun v => is_k w v KMod) vs = true ->
+  step w (OModSetExt ir a b c vs) = Ok w' -> Good w w'.
+Proof.
+  intros w ir a b c vs w' Hir Hvs H. unfold step in H. cbv zeta in H.
+  destruct (SeqOps.py_slice_indices a b c (length (kids w ir))) as [[[s e] st]|er]; [|discriminate].
+  destruct (st =? 1); [discriminate|].
+  destruct (negb (Nat.eqb (length vs) (length (SeqOps.py_range_positions s e st (length (kids w ir)))))); [discriminate|].
+  apply flagged_ok in H. subst w'. apply ml_assign_good; [exact Hir|].
+  intros x Hx Hnx. apply assign_ext_incl in Hx. destruct Hx as [Hx|Hx]; [contradiction|].
+  apply is_k_kind. rewrite forallb_forall in Hvs. apply Hvs. exact Hx.
+Qed.
+
 Lemma step_modclear_good : forall w ir w', kindof w ir = KIR ->
   step w (OModClear ir) = Ok w' -> Good w w'.
 Proof.
@@ -442,6 +488,9 @@ Proof.
   - (* OModSetSlice *)
     cbn [op_okb] in Hok. apply andb_prop in Hok. destruct Hok as [Hir Hv].
     eapply step_modsetslice_good; [| |exact Hs]; [apply is_k_kind|]; assumption.
+  - (* OModSetExt *)
+    cbn [op_okb] in Hok. apply andb_prop in Hok. destruct Hok as [Hok _]. apply andb_prop in Hok. destruct Hok as [Hir Hv].
+    eapply step_modsetext_good; [| |exact Hs]; [apply is_k_kind|]; assumption.
   - (* OModClear *)
     cbn [op_okb] in Hok. eapply step_modclear_good; [|exact Hs]. apply is_k_kind. exact Hok.
   - (* OModReverse *)
